@@ -44,6 +44,7 @@ ClusterWhy(e) ==
        IN IF cuts # {} THEN "cluster-resync-after-read-cut" ELSE "cluster"
 
 Accepts(e) == \E p \in RunSet({Init0}, e.in) : Match(Explode(e.items, <<>>), p.out)
+AcceptsK(e) == \E p \in RunSet({Init0}, e.in) : MatchK(Explode(e.items, <<>>), p.out)
 
 Why(e) ==
   IF e.panic THEN "panic"
@@ -60,6 +61,7 @@ Next ==
         LET w == Why(e) IN
         IF w = "ok" THEN TRUE
         ELSE PrintT("REJECT " \o ToJson([scn |-> e.scn, line |-> l, why |-> w,
+                                         known |-> IF w = "items" /\ AcceptsK(e) THEN "spurious-ESC-backslash:after-empty-osc" ELSE "",
                                          at |-> Diverge(Explode(e.items, <<>>), Run(Init0, e.in).out, "")]))
      ELSE TRUE
 
